@@ -205,6 +205,11 @@ def cfg_geometry(config, tier, seed):
         ok = sg == -sg2 and sg != 0
         extra = [Result(name=f"theta_hat{(i, j)} = -theta_hat{(j, i)}: opposite acos signs", kind="ground", status="ok" if ok else "fail",
                         config=config["name"], replay={"reproduced": not ok, "signs": [sg, sg2]})]  # fmt: skip
+        # orientation in the decay plane: the three angles 1->2, 2->3, 3->1 are counted in one sense (they close to 2 pi),
+        # so the cyclic pairs carry +acos and the anti-cyclic ones -acos (Eq. (A3) of the DPD paper the docstring cites)
+        want_sg = 1 if (i, j) in ((1, 2), (2, 3), (3, 1)) else -1
+        extra.append(Result(name=f"theta_hat{(i, j)}: orientation (cyclic pairs positive, so that theta_hat_1(2)+theta_hat_2(3)+theta_hat_3(1) = 2 pi)", kind="ground",
+                            status="ok" if sg == want_sg else "fail", config=config["name"], replay={"reproduced": sg != want_sg, "sign of acos": sg, "expected": want_sg}))  # fmt: skip
     else:
         # theta_ij + theta_ji = pi: both +acos and cos_ji = -cos_ij
         obs += _cos_equal_obligations(ctx, tr, f"theta{(i, j)}+theta{(j, i)}=pi: cos_ji == -cos_ij", numer_den2(c2), numer_den2(c), sign=-1)
